@@ -175,6 +175,16 @@ func (it *Interp) pickRunnable(except *G) *G {
 	return nil
 }
 
+func (it *Interp) stackSummary() string {
+	where := ""
+	n := 0
+	for f := it.curFrame; f != nil && n < 10; f = f.caller {
+		where += " < " + f.fn.String()
+		n++
+	}
+	return where
+}
+
 func (it *Interp) blockedSummary() string {
 	s := ""
 	for _, g := range it.gs {
@@ -205,7 +215,7 @@ func (it *Interp) blockUntil(what string, ready func() bool) {
 				it.switchTo(it.mainG, true)
 				continue
 			}
-			panic(&abort{"blocked", what + "; all goroutines blocked: " + it.blockedSummary()})
+			panic(&abort{"blocked", what + "; all goroutines blocked: " + it.blockedSummary() + " at" + it.stackSummary()})
 		}
 		it.switchTo(next, true)
 	}
